@@ -573,22 +573,25 @@ func TestVerifC05(t *testing.T) {
 	c.Assume("generated notices are at most 3 days and warnings at most 10 days old with respect to the real clock (the virtual clock is anchored at the real now + 24h and only moves forward), so none expires; explicit warning times and OkayWarnings cut-offs are >= 3h away from the real clock so PendingWarnings/WarningsSummary do not depend on when they are asked; Prune's time limits are out of reach, only its count limit removes changes")
 	c.Assume("a change that is (cached-)ready is never driven back to unready (the state engine panics on that transition) and tasks are only cleaned in ready changes; WaitFor edges stay inside one change and are acyclic")
 	c.Assume("Change.IsReady is compared only when the live change's cached readiness agrees with its status (documented: never-marked-ready changes report false live, true after unmarshal); Task.WaitedStatus of a task not in WaitStatus may be Default live and the documented default Done after reload")
-	c.Floor("reloads", 100)
-	c.Floor("ids_issued_after_reload.change", 50)
-	c.Floor("ids_issued_after_reload.task", 50)
-	c.Floor("ids_issued_after_reload.lane", 50)
-	c.Floor("ids_issued_after_reload.notice", 50)
-	c.Floor("changes_pruned", 20)
-	c.Floor("roundtripped.tasks_in_wait_status", 20)
-	c.Floor("roundtripped.tasks_with_full_log", 20)
-	c.Floor("roundtripped.tasks_with_at_time", 20)
-	c.Floor("roundtripped.tasks_with_run_times", 10)
-	c.Floor("roundtripped.tasks_in_lanes", 50)
-	c.Floor("roundtripped.wait_edges", 50)
-	c.Floor("legacy_payloads", 10)
-
 	anchor := time.Now().Add(24 * time.Hour)
 	only := kit.OnlyCase()
+	if only < 0 {
+		c.Floor("reloads", 100)
+		c.Floor("ids_issued_after_reload.change", 50)
+		c.Floor("ids_issued_after_reload.task", 50)
+		c.Floor("ids_issued_after_reload.lane", 50)
+		c.Floor("ids_issued_after_reload.notice", 50)
+		c.Floor("changes_pruned", 20)
+		c.Floor("roundtripped.tasks_in_wait_status", 20)
+		c.Floor("roundtripped.tasks_with_full_log", 20)
+		c.Floor("roundtripped.tasks_with_at_time", 20)
+		c.Floor("roundtripped.tasks_with_run_times", 10)
+		c.Floor("roundtripped.tasks_in_lanes", 50)
+		c.Floor("roundtripped.wait_edges", 50)
+		c.Floor("legacy_payloads", 10)
+	} else {
+		c.MinDistinct(0) // replay of one case
+	}
 	n := kit.Scale(600, 5000)
 	for i := 0; i < n; i++ {
 		if only >= 0 && i != only {
